@@ -13,7 +13,8 @@ pub const FLOORS: &[&str] = &[
     "mut:token_delete", "mut:token_dup", "mut:token_swap", "mut:token_replace", "mut:char",
     "mut:multibyte", "mut:prefix", "mut:none", "mb_after:x", "mb_after:0x", "mb_after:#",
     "mb_after:.", "mb_after:r", "mb_after:quote", "mb_after:other", "operand_is:directive",
-    "operand_is:break", "operand_is:string", "accepted", "rejected", "size:small",
+    "operand_is:break", "operand_is:string", "accepted", "rejected", "size:small", "operand_is:number_beyond_32_bits",
+    "line_starts_with:number_beyond_32_bits",
 ];
 
 const MB: &[&str] = &["\u{e9}", "\u{2713}", "\u{1F34B}", "\u{0301}", "\u{a0}", "\u{3000}", "\u{ff10}"];
@@ -37,6 +38,11 @@ const TOKEN_POOL: &[(&str, &str)] = &[
     ("trap", "trap"), ("halt", "trap"), ("puts", "trap"), ("getc", "trap"), ("reg", "trap"),
     ("; comment", "comment"), (";", "comment"), ("@", "unknown"), ("$1", "unknown"), ("'c'", "unknown"),
     ("\u{e9}", "unknown"), ("-5", "unknown"), ("+", "unknown"), ("[r0]", "unknown"), ("\0", "unknown"),
+    // magnitudes at and beyond every integer width a parser might pass through
+    ("65536", "bignum"), ("4294967295", "bignum"), ("4294967296", "bignum"), ("99999999999", "bignum"),
+    ("18446744073709551616", "bignum"), ("340282366920938463463374607431768211456", "bignum"), ("00000000000000000000012", "bignum"),
+    ("#4294967296", "bignum"), ("#-2147483649", "bignum"), ("#18446744073709551615", "bignum"), ("x100000000", "bignum"),
+    ("xFFFFFFFFFFFFFFFFF", "bignum"), ("x-80000000", "bignum"), ("-99999999999", "bignum"), ("r99999999999", "bignum"),
 ];
 
 const CHAR_POOL: &[char] = &[
@@ -141,8 +147,11 @@ fn mutate(base: &str, rng: &mut Rng) -> Mutated {
                         "directive" => classes.push("operand_is:directive".into()),
                         "break" => classes.push("operand_is:break".into()),
                         "string" | "badstring" => classes.push("operand_is:string".into()),
+                        "bignum" => classes.push("operand_is:number_beyond_32_bits".into()),
                         _ => {}
                     }
+                } else if kind == "bignum" {
+                    classes.push("line_starts_with:number_beyond_32_bits".into());
                 }
             }
             5 => {
